@@ -92,13 +92,14 @@ def parse_template(path):
         elif s.startswith("//@loop "):
             k = int(s.split()[1])
             sec = cur["loops"].setdefault(k, [])
-        elif s.startswith("//@before ") or s.startswith("//@after "):
-            kind, _, rx = s[3:].partition(" ")
-            rx = rx.strip()
-            if not (rx.startswith("/") and rx.endswith("/")):
+        elif s.startswith("//@before") or s.startswith("//@after"):
+            m = re.match(r"//@(before|after)(?:\[(\d+)/(\d+)\])? /(.*)/$", s)
+            if not m:
                 raise Undecided("bad anchor: " + s)
             sec = []
-            cur[kind].append((rx[1:-1], sec))
+            kind = m.group(1)
+            k, tot = (int(m.group(2)), int(m.group(3))) if m.group(2) else (1, 1)
+            cur[kind].append((m.group(4), k, tot, sec))
         elif s == "//@end":
             items.append(("fn", cur))
             cur, sec = None, None
@@ -179,12 +180,12 @@ def fill_fn(spec, canary, canary_ids, log):
     # 4. proof blocks at statement anchors ----------------------------------------------------
     masked = X.mask(body)
     for kind in ("before", "after"):
-        for rx, lines in spec[kind]:
+        for rx, k, tot, lines in spec[kind]:
             ms = list(re.finditer(rx, masked))
-            if len(ms) != 1:
-                raise Undecided("lost anchor: /%s/ matched %d times in fn %s"
-                                % (rx, len(ms), spec["name"]))
-            m = ms[0]
+            if len(ms) != tot:
+                raise Undecided("lost anchor: /%s/ matched %d times in fn %s (expected %d)"
+                                % (rx, len(ms), spec["name"], tot))
+            m = ms[k - 1]
             if kind == "before":
                 pos = body.rfind("\n", 0, m.start()) + 1
             else:
